@@ -243,6 +243,19 @@ func TestC09Divvy(t *testing.T) {
 		if err := k.Report.Set(ctx, collections.Join(q, collections.Join(rep.Bytes(), h)), rtypes.DelegationsAmounts{TokenOrigins: tos, Total: math.NewIntFromBigInt(total)}); err != nil {
 			t.Fatal(err)
 		}
+		// decoy snapshots of the same reporter: another query at the same height (sorting before and after "q"), the same
+		// query at the neighbouring heights - the split must use exactly the snapshot of (query, reporter, height)
+		if len(tos) > 0 {
+			decoy := []*rtypes.TokenOriginInfo{{DelegatorAddress: tos[0].DelegatorAddress, ValidatorAddress: []byte{9}, Amount: math.NewInt(12345)}}
+			for _, dk := range []struct {
+				q []byte
+				h uint64
+			}{{[]byte("p"), h}, {[]byte("r"), h}, {q, h - 1}, {q, h + 1}, {[]byte("zz"), h}} {
+				if err := k.Report.Set(ctx, collections.Join(dk.q, collections.Join(rep.Bytes(), dk.h)), rtypes.DelegationsAmounts{TokenOrigins: decoy, Total: math.NewInt(12345)}); err != nil {
+					t.Fatal(err)
+				}
+			}
+		}
 		if err := k.DivvyingTips(ctx, rep, math.LegacyNewDecFromBigIntWithPrec(reward, 18), q, h); err != nil {
 			t.Fatalf("DivvyingTips: %v", err)
 		}
